@@ -1,0 +1,25 @@
+"""Verification hooks (off by default).
+
+With the environment variable ``PB_BSS_VERIF=1`` the EM loops of the mixture
+model trainers report the state after every M-step to a registered observer.
+Without the variable (the default) nothing here is ever called.
+"""
+import os
+
+ENABLED = os.environ.get('PB_BSS_VERIF') == '1'
+
+_observer = None
+
+
+def set_observer(observer):
+    """Register ``observer(trainer, iteration, model, affiliation, **state)``
+    (or None to unregister). Returns the previously registered observer."""
+    global _observer
+    previous = _observer
+    _observer = observer
+    return previous
+
+
+def step(trainer, iteration, model, affiliation, **state):
+    if _observer is not None:
+        _observer(trainer, iteration, model, affiliation, **state)
